@@ -261,7 +261,7 @@ pub fn run_gen(seed: u64) -> Outcome {
         };
         let _ = tx.send(r);
     });
-    match rx.recv_timeout(std::time::Duration::from_millis(3000)) {
+    match rx.recv_timeout(crate::tmo(3000)) {
         Ok(Ok(())) => Outcome { fails: false, observed: "ok".into(), expected },
         Ok(Err(e)) => Outcome { fails: true, observed: e, expected },
         Err(_) => {
